@@ -10,7 +10,8 @@ use futures_lite::{
 
 use sqlx::{
     pool::PoolConnection,
-    sqlite::{Sqlite, SqlitePool},
+    query::Query,
+    sqlite::{Sqlite, SqliteArguments, SqlitePool, SqliteQueryResult},
     Acquire, Database, Error as SqlxError, Row, TransactionManager,
 };
 
@@ -122,12 +123,13 @@ impl Backend for SqliteBackend {
             .await?;
             let mut conn = self.conn_pool.acquire().await?;
             let removals = self.key_cache.removal_count();
-            let done =
+            let done = execute_locked(
+                &mut conn,
                 sqlx::query("INSERT OR IGNORE INTO profiles (name, profile_key) VALUES (?1, ?2)")
                     .bind(&name)
-                    .bind(enc_key)
-                    .execute(conn.as_mut())
-                    .await?;
+                    .bind(enc_key),
+            )
+            .await?;
             conn.return_to_pool().await;
             if done.rows_affected() == 0 {
                 return Err(err_msg!(Duplicate, "Duplicate profile name"));
@@ -164,12 +166,14 @@ impl Backend for SqliteBackend {
     fn set_default_profile(&self, profile: String) -> BoxFuture<'_, Result<(), Error>> {
         Box::pin(async move {
             let mut conn = self.conn_pool.acquire().await?;
-            sqlx::query(CONFIG_UPDATE_QUERY)
-                .bind("default_profile")
-                .bind(profile)
-                .execute(conn.as_mut())
-                .await
-                .map_err(err_map!(Backend, "Error setting default profile name"))?;
+            execute_locked(
+                &mut conn,
+                sqlx::query(CONFIG_UPDATE_QUERY)
+                    .bind("default_profile")
+                    .bind(profile),
+            )
+            .await
+            .map_err(err_map!(Backend, "Error setting default profile name"))?;
             conn.return_to_pool().await;
             Ok(())
         })
@@ -191,12 +195,13 @@ impl Backend for SqliteBackend {
     fn remove_profile(&self, name: String) -> BoxFuture<'_, Result<bool, Error>> {
         Box::pin(async move {
             let mut conn = self.conn_pool.acquire().await?;
-            let ret = sqlx::query("DELETE FROM profiles WHERE name=?")
-                .bind(&name)
-                .execute(conn.as_mut())
-                .await
-                .map_err(err_map!(Backend, "Error removing profile"))?
-                .rows_affected()
+            let ret = execute_locked(
+                &mut conn,
+                sqlx::query("DELETE FROM profiles WHERE name=?").bind(&name),
+            )
+            .await
+            .map_err(err_map!(Backend, "Error removing profile"))?
+            .rows_affected()
                 != 0;
             conn.return_to_pool().await;
             self.key_cache.remove_profile(&name).await;
@@ -611,6 +616,31 @@ impl ExtDatabase for Sqlite {
             Ok(())
         })
     }
+}
+
+/// Execute the single write statement of a store-level call inside an immediate
+/// transaction. The connection worker may step a statement which failed with
+/// 'database is locked' once more after the error has been returned, so a bare
+/// statement can still be applied after the call has reported failure. Inside
+/// the transaction the write lock is held before the statement runs, and a
+/// failure to obtain it is rolled back.
+async fn execute_locked<'q>(
+    conn: &mut PoolConnection<Sqlite>,
+    query: Query<'q, Sqlite, SqliteArguments<'q>>,
+) -> Result<SqliteQueryResult, SqlxError> {
+    Sqlite::start_transaction(conn.as_mut(), false).await?;
+    let res = match query.execute(conn.as_mut()).await {
+        Ok(done) => <Sqlite as Database>::TransactionManager::commit(conn.as_mut())
+            .await
+            .map(|_| done),
+        Err(err) => Err(err),
+    };
+    if res.is_err() {
+        <Sqlite as Database>::TransactionManager::rollback(conn.as_mut())
+            .await
+            .ok();
+    }
+    res
 }
 
 async fn acquire_key(
